@@ -143,6 +143,7 @@ func checkC03(c *Check) {
 	c.settleHandsOnPayments("R2", settle)
 	c.Floor("R2", 4)
 	c.genesisIdentityRule("R7")
+	c.escrowExportComplete("R7")
 
 	// ---- R3 co-transition
 	pairs := map[string]string{"AccountClosed": "PaymentClosed", "AccountOverdrawn": "PaymentOverdrawn"}
@@ -843,6 +844,34 @@ func (c *Check) statePersistedRule(rule string, kfuncs []*ssa.Function) {
 				li := liftTo(fn, ss.st)
 				if li == nil {
 					c.Info(rule, inst+": position of the helper's call not resolved, persistence not decided", ss.st.Pos(), "")
+					continue
+				}
+				// persisted inside the helper itself, on every way out of it that reports success?
+				hf := ss.st.Parent()
+				inPred := func(in ssa.Instruction) bool {
+					return isPersistOf(in, func(v ssa.Value) bool { return Sym(v) == objSym }, 0)
+				}
+				inside, nin := true, 0
+				hrets := successReturns(hf)
+				if errResultIndex(hf) < 0 {
+					hrets = nil
+					for _, b := range hf.Blocks {
+						if r, isR := b.Instrs[len(b.Instrs)-1].(*ssa.Return); isR {
+							hrets = append(hrets, r)
+						}
+					}
+				}
+				for _, r := range hrets {
+					if !reachableFrom(ss.st, r) {
+						continue
+					}
+					nin++
+					if !mustPassFrom(hf, ss.st, r, inPred) {
+						inside = false
+					}
+				}
+				if inside && nin > 0 {
+					c.Ob(rule, inst, ss.st.Pos(), true, "")
 					continue
 				}
 				c.statePersistedFrom(rule, inst, fn, li, objSym, ss.st.Pos())
